@@ -36,8 +36,8 @@ def main():
     for sid, r in results:
         mp = os.path.join(SEEDED, sid, 'meta.json')
         meta = json.load(open(mp))
-        if 'error' in r:
-            meta['detected_by'] = {'error': r['error']}
+        if 'error' in r or 'detected_by' not in r:
+            meta['detected_by'] = {'error': r.get('error') or 'patch does not apply to the current /repo: %s' % r.get('patch_output', '')}
         else:
             meta['detected_by'] = dict((c, {'detected': v['exit'] == 1, 'exit': v['exit'], 'wall_s': v['wall_s'],
                                             'first_stage': (v['first'] or [''])[0][:200]}) for c, v in r['detected_by'].items())
